@@ -289,6 +289,7 @@ func c12NdpCase(in c12NdpIn) *c12Fail {
 
 type c12Wait struct {
 	lateReplies int
+	advFromLL   bool
 	scen        string // udp | udp2 | gw | tcp | udp6
 	c           *c12World
 	ch          *engine.Chooser
@@ -333,8 +334,14 @@ func (x *c12Wait) deliverReply(mac tcpip.LinkAddress) {
 		copy(body[4:], x.nextHop)
 		body = append(body, 2, 1)
 		body = append(body, mac...)
-		msg := ref.BuildICMPv6(136, 0, body, []byte(x.nextHop), []byte(addrA6))
-		x.c.w.Inject(x.c.n, 1, 0x86dd, ref.BuildIPv6([]byte(x.nextHop), []byte(addrA6), ref.ProtoICMPv6, 255, msg), mac, macS)
+		src := []byte(x.nextHop)
+		if x.advFromLL {
+			// RFC 4861 7.2.4: the advertisement may come from another address of the interface,
+			// typically its link-local one; what it resolves is the target field
+			src = []byte("\xfe\x80\x00\x00\x00\x00\x00\x00\x00\x00\x00\x00\x00\x00\x00\x42")
+		}
+		msg := ref.BuildICMPv6(136, 0, body, src, []byte(addrA6))
+		x.c.w.Inject(x.c.n, 1, 0x86dd, ref.BuildIPv6(src, []byte(addrA6), ref.ProtoICMPv6, 255, msg), mac, macS)
 	} else {
 		x.c.w.Inject(x.c.n, 1, 0x0806, ref.BuildARP(2, []byte(mac), []byte(x.nextHop), []byte(macS), []byte(addrA4)), mac, macS)
 	}
@@ -498,7 +505,8 @@ func c12RunWait(scen string, prefix []int) (res *engine.EnvRun) {
 		nsock = 2
 	case "gw":
 		x.dst, x.nextHop = ipFar, ipGW
-	case "udp6":
+	case "udp6", "udp6ll":
+		x.advFromLL = scen == "udp6ll"
 		x.v6 = true
 		x.dst, x.nextHop = ip6X, ip6X
 		netp = ipv6.ProtocolNumber
@@ -821,7 +829,7 @@ func c12Wrap() []c12Fail {
 
 func c12Jobs(tier string) []string {
 	jobs := []string{"resp:arp", "resp:ndp", "overflow", "wrap"}
-	for _, s := range []string{"udp", "udp2", "gw", "tcp", "udp6"} {
+	for _, s := range []string{"udp", "udp2", "gw", "tcp", "udp6", "udp6ll"} {
 		b := 2
 		if tier == "thorough" {
 			b = 3
